@@ -705,7 +705,7 @@ def for_loop(ex, st, s, cx, o, spec):
         if t.kind == 'opt' and T.is_reflike(t.args[0]):
             coll = SV(t.args[0], coll.z)
             t = coll.ty
-        if t.kind not in ('list', 'seq'):
+        if t.kind not in ('list', 'seq', 'cfg'):
             raise VCError(f'for over {t!r} outside subset: {ast.unparse(it)}')
         s2 = s2.setvar(cname, SV(INT, I(0))).setvar(f'$it{o}', coll)
 
@@ -716,7 +716,7 @@ def for_loop(ex, st, s, cx, o, spec):
         def bind_fn(s3):
             i = s3.vars[cname].z
             _, at3 = ex.seq_view(s3, coll)
-            x = SV(t.args[0], at3(i))
+            x = SV(t.args[0] if t.kind != 'cfg' else T.CFG, at3(i))
             for fact in ex.type_facts(x):
                 s3 = s3.assume(fact)
             s3 = ex.assume_allocated(s3, x)
